@@ -311,7 +311,21 @@ def _abscase(ctx) -> None:
                 and "self.utcoffset(" in un(n.value):
             q[n.targets[0].id] = n.value
     if len(q) != 2:
-        ctx.unverified("ABSCASE.queries", "Timezone.convert", f"{len(q)} utcoffset queries found (expected 2)", m.loc(fn))
+        # which locals does the branch logic compare?  they must be utcoffset() readings
+        cmp_names = set()
+        for n in core.walk_fn(fn):
+            if isinstance(n, ast.If):
+                for c in ast.walk(n.test):
+                    if isinstance(c, ast.Compare) and isinstance(c.left, ast.Name) and isinstance(c.comparators[0], ast.Name):
+                        cmp_names |= {c.left.id, c.comparators[0].id}
+        defs = {nm: [nun(v) for v in core.assigns_to(fn, nm)] for nm in cmp_names}
+        other = {nm: d for nm, d in defs.items() if d and not any("self.utcoffset(" in x for x in d)}
+        if other:
+            ctx.ob("ABSCASE.queries", "Timezone.convert/offset-source", False,
+                   f"the values compared to classify a wall time are {other}; they must be self.utcoffset(...) readings at fold 0 and 1 "
+                   f"(dst() or another proxy misses offset changes that are not DST switches)", m.loc(fn))
+        else:
+            ctx.unverified("ABSCASE.queries", "Timezone.convert", f"{len(q)} utcoffset queries found (expected 2)", m.loc(fn))
         return
     role: dict[int, str] = {}
     try:
